@@ -589,8 +589,22 @@ class Exec(ExprMixin, CallMixin):
 
     def merge2(self, a, b):
         n = common_prefix(a.pc, b.pc)
-        ca = zand([z for z, d in zip(a.pc[n:], a.pcd[n:]) if d])
-        cb = zand([z for z, d in zip(b.pc[n:], b.pcd[n:]) if d])
+        da = [z for z, d in zip(a.pc[n:], a.pcd[n:]) if d]
+        db = [z for z, d in zip(b.pc[n:], b.pcd[n:]) if d]
+
+        def exclusive():
+            for x in da:
+                for y in db:
+                    if (z3.is_not(x) and x.arg(0).eq(y)) or (z3.is_not(y) and y.arg(0).eq(x)):
+                        return True
+            return False
+        if not exclusive():
+            # the two paths are not separated by complementary branch decisions (e.g. a call that may or may not raise):
+            # separate them by a fresh selector so that the facts of one path are never asserted on the other
+            sel = z3.Bool(fresh_name('path'))
+            da = da + [sel]
+            db = db + [z3.Not(sel)]
+        ca, cb = zand(da), zand(db)
         m = State(self.eng)
         m.old = a.old
         m.pc = a.pc[:n]
@@ -1353,10 +1367,6 @@ class Exec(ExprMixin, CallMixin):
         if True:
             if True:
                 pass
-        for gname, gexpr in c.ghost_sets.items():
-            gt = eng.ptype(eng.prop.ghosts[gname])
-            gv = self.spec_value(gexpr, pre.copy(), env, old=pre)
-            st.seth(('g', gname, gt), coerce(gv, gt).z)
         rt = eng.ptype(c.returns)
         res = none_sv() if isinstance(rt, T._None) else SV(rt, rt.fresh(fresh_name('ret_' + c.name.replace('.', '_'))))
         for a in self.type_inv(res, st):
@@ -1366,13 +1376,25 @@ class Exec(ExprMixin, CallMixin):
             iff = cond.startswith('iff:')
             cz = self.spec_eval(cond[4:] if iff else cond, pre.copy(), env, old=pre)
             e = st.copy()
-            e.assume(cz, True)
+            if iff:
+                e.assume(cz, True)
+            else:
+                # "may raise when cz": whether it does is a fresh, otherwise unconstrained decision
+                raised = z3.Bool(fresh_name('raised'))
+                e.assume(raised, True)
+                e.assume(cz)
+                st.assume(z3.Not(raised), True)
             e.old = my_old
             for x in c.exc_ensures.get(exc, []):
                 e.assume(self.spec_eval(x, e, env, old=pre))
             self.exits.append((e, exc, 'call %s' % c.name))
             if iff:
                 st.assume(z3.Not(cz), True)
+        # ghost protocol state is updated on normal return only
+        for gname, gexpr in c.ghost_sets.items():
+            gt = eng.ptype(eng.prop.ghosts[gname])
+            gv = self.spec_value(gexpr, pre.copy(), env, old=pre)
+            st.seth(('g', gname, gt), coerce(gv, gt).z)
         env2 = dict(env, result=res)
         for e in c.ensures:
             st.assume(self.spec_eval(e, st, env2, old=pre))
